@@ -47,21 +47,34 @@ func (lsm *LSM) NewIterators(opt *utils.Options) []utils.Iterator {
 
 // Next advances the first wrapped iterator.
 func (iter *Iterator) Next() {
+	if len(iter.iters) == 0 {
+		return
+	}
 	iter.iters[0].Next()
 }
 
 // Valid reports whether the first wrapped iterator is valid.
 func (iter *Iterator) Valid() bool {
+	if len(iter.iters) == 0 {
+		// No source (e.g. an iterator requested while the LSM is closing): exhausted.
+		return false
+	}
 	return iter.iters[0].Valid()
 }
 
 // Rewind rewinds the first wrapped iterator.
 func (iter *Iterator) Rewind() {
+	if len(iter.iters) == 0 {
+		return
+	}
 	iter.iters[0].Rewind()
 }
 
 // Item returns the current item from the first wrapped iterator.
 func (iter *Iterator) Item() utils.Item {
+	if len(iter.iters) == 0 {
+		return nil
+	}
 	return iter.iters[0].Item()
 }
 
